@@ -295,10 +295,16 @@ def trace_validation(ctx, B):
     tlc.cleanup(wd)
 
 
-def proofs(ctx):
+def proofs(ctx, modules=('BBoxLaws', 'SliceLaws')):
+    """Unbounded TLAPS proofs: lattice laws of union / intersection, and the overlap-window arithmetic of get_overlap_slices."""
     from .. import tlaps
-    ob, ok, out = tlaps.prove('BBoxLaws')
-    ctx.note('tlaps_obligations', ob)
-    ctx.note('tlaps_discharged', ok)
-    if ob == 0 or ob != ok:
-        raise tlc.TlcError(f'TLAPS: {ok}/{ob} obligations proved for BBoxLaws\n{out[-2000:]}')
+    tot_ob = tot_ok = 0
+    for module in modules:
+        ob, ok, out = tlaps.prove(module)
+        ctx.note(f'tlaps_{module}', f'{ok}/{ob} obligations')
+        tot_ob += ob
+        tot_ok += ok
+        if ob == 0 or ob != ok:
+            raise tlc.TlcError(f'TLAPS: {ok}/{ob} obligations proved for {module}\n{out[-2000:]}')
+    ctx.note('tlaps_obligations', tot_ob)
+    ctx.note('tlaps_discharged', tot_ok)
